@@ -87,6 +87,7 @@ struct Result {
 static inline void parse_stats(Result& r) {
     for (auto& t : split_ws(r.stats_line)) { size_t e = t.find('='); if (e == std::string::npos) continue; std::string k = t.substr(0, e), v = t.substr(e + 1); if (k == "cls") r.cls = v; else r.st[k] = atol(v.c_str()); }
 }
+static bool g_child_trace = false;
 static inline Result run_child(const std::string& text, int wall_kill_s = 45) {
     Result r; int in[2], outp[2], errp[2];
     if (pipe(in) || pipe(outp) || pipe(errp)) { r.verdict = "INCONCLUSIVE"; r.kind = "PIPE"; return r; }
@@ -96,7 +97,8 @@ static inline Result run_child(const std::string& text, int wall_kill_s = 45) {
         for (int fd = 3; fd < 64; fd++) close(fd);
         personality(ADDR_NO_RANDOMIZE);
         char* const argv[] = { (char*)"harness", (char*)"run", nullptr };
-        char* const envp[] = { (char*)"PATH=/usr/bin:/bin", (char*)"TBB_VERSION=0", (char*)"LC_ALL=C", nullptr };
+        // fixed environment of fixed size (the trace switch only changes one character)
+        char* const envp[] = { (char*)"PATH=/usr/bin:/bin", (char*)"TBB_VERSION=0", (char*)"LC_ALL=C", (char*)(g_child_trace ? "VS_TRACE_DUMP=1" : "VS_TRACE_NONE=1"), nullptr };
         execve("/proc/self/exe", argv, envp);
         _exit(127);
     }
@@ -110,7 +112,7 @@ static inline Result run_child(const std::string& text, int wall_kill_s = 45) {
         if (pr <= 0) continue;
         for (int i = 0; i < 2; i++) if (pf[i].fd >= 0 && (pf[i].revents & (POLLIN | POLLHUP | POLLERR))) {
             char b[4096]; ssize_t n = read(pf[i].fd, b, sizeof b);
-            if (n > 0) { (i == 0 ? so : se).append(b, (size_t)n); if (se.size() > 65536) se.erase(0, se.size() - 32768); }
+            if (n > 0) { (i == 0 ? so : se).append(b, (size_t)n); if (se.size() > 400000) se.erase(0, se.size() - 200000); }
             else { close(pf[i].fd); pf[i].fd = -1; open_n--; }
         }
     }
@@ -121,7 +123,7 @@ static inline Result run_child(const std::string& text, int wall_kill_s = 45) {
         else if (l.rfind("T ", 0) == 0) r.tape_line = l.substr(2);
     }
     parse_stats(r);
-    std::string tail = se.size() > 600 ? se.substr(se.size() - 600) : se; for (auto& c : tail) if (c == '\n') c = ' ';
+    size_t keep = g_child_trace ? 200000 : 600; std::string tail = se.size() > keep ? se.substr(se.size() - keep) : se; if (!g_child_trace) for (auto& c : tail) if (c == '\n') c = ' ';
     r.err = tail;
     if (r.verdict == "NONE") {
         if (killed) { r.verdict = "INCONCLUSIVE"; r.kind = "PARENT-KILL"; }
@@ -301,8 +303,13 @@ static inline int drv_main(int argc, char** argv) {
     auto arg = [&](const char* k, const char* def) -> std::string { for (int i = 2; i + 1 < argc; i++) if (!strcmp(argv[i], k)) return argv[i + 1]; return def; };
     auto has = [&](const char* k) { for (int i = 2; i < argc; i++) if (!strcmp(argv[i], k)) return true; return false; };
     if (mode == "run") {
-        std::string all, l; while (std::getline(std::cin, l)) all += l + "\n";
-        Case c; for (auto& ln : split_lines(all)) { if (ln.rfind("sched ", 0) == 0) c.sched = ln.substr(6); else if (ln[0] != '#') c.lines.push_back(ln); }
+        // The heap layout of the child must be a function of the program and sched lines only (oneTBB is address
+        // sensitive): read into a static buffer and drop comment lines ("# verdict ...") before anything is allocated.
+        static char buf[1 << 20]; size_t n = 0; ssize_t r;
+        while (n < sizeof buf - 1 && (r = read(0, buf + n, sizeof buf - 1 - n)) > 0) n += (size_t)r;
+        buf[n] = 0;
+        Case c; c.sched.reserve(4096);
+        for (char* p = buf; *p;) { char* e = strchr(p, '\n'); if (e) *e = 0; if (*p && *p != '#') { if (!strncmp(p, "sched ", 6)) c.sched.assign(p + 6); else c.lines.emplace_back(p); } if (!e) break; p = e + 1; }
         h_run(c);
         vs_ok();
     }
@@ -313,6 +320,7 @@ static inline int drv_main(int argc, char** argv) {
     }
     if (mode == "replay") {
         std::ifstream f(argv[2]); std::stringstream ss; ss << f.rdbuf();
+        g_child_trace = has("--trace");
         Result r = run_child(ss.str());
         printf("%s %s %s\n%s\n", r.verdict.c_str(), r.kind.c_str(), r.detail.c_str(), r.stats_line.c_str());
         if (!r.err.empty()) printf("stderr: %s\n", r.err.c_str());
